@@ -5,7 +5,9 @@ OUT=${1:-/tmp/seed_results.txt}; PAT=${2:-}
 : > "$OUT"
 for d in /verif/seeded/*${PAT}*/; do
   s=$(basename "$d"); p=${s%%-*}
-  if grep -q "parser.go.y" "$d/patch.diff"; then T=/verif/bin/try_seed_y.sh; else T=/verif/bin/try_seed.sh; fi
+  # a patch is applied as it is whenever it applies (its parser/y.go may be the very defect); only when the y.go
+  # hunks do not apply (generated file drifted) everything but y.go is applied and y.go regenerated
+  if git -C /repo apply --check "$d/patch.diff" 2>/dev/null; then T=/verif/bin/try_seed.sh; else T=/verif/bin/try_seed_y.sh; fi
   r=$($T "$d/patch.diff" "$p" 2>&1)
   if echo "$r" | grep -q "patch does not apply\|does not build"; then v=NOAPPLY
   elif echo "$r" | grep -q "^VIOLATION property=$p"; then
